@@ -236,6 +236,8 @@ def finish_programs(ctx, lines, impl_tok, meta, spec_lines, spec_meta, pid="C05"
 
 
 def run(ctx):
+    import extract
+    extract.main()
     lean_obligations(ctx)
     ctx.extra["rule"] = ("seeded typed random programs of depth 1-8 over a pool of per-tensor / per-axis QBytes (3 qtypes, equal and different scales), packed QBits, plain tensors and exactly representable Python scalars, "
                          "dtype float32/float16/bfloat16, ranks 1-4; ops: every entry of the QBytes dispatch table + reshape + 16 pass-through functions. distinct = (op, params, operand kinds, branch, dtype); "
